@@ -426,7 +426,7 @@ impl Property for C08 {
         "C08"
     }
     fn rule(&self) -> String {
-        "the real Server (router + lifecycle + concurrency layers) in-process over an in-memory pipe. Controlled part: per scenario - handler under test in {change root, change included document, open included document, re-send identical text, close root} against the still-parked diagnostics task of the previous notification and {no request | one of the 8 request kinds | thorough: every pair of request kinds} - every interleaving of the schedule points (verif hooks) with at most 1 preemption (thorough: 3) is enumerated by stateless DFS; a released thread that does not reach its next point is classified running/blocked from /proc; deadlock = no actor can be released while some are blocked. Uncontrolled part: bursts of 3..9 operations (didOpen/didChange/didClose of a root, its included document and a third independent document back to back, each of the 8 request kinds, sub-3ms pauses) on documents of 1..300 classes, half of them with documents that carry diagnostics and a root that sometimes drops its include (files with published problems leave the workspace); all 8x2 change-then-request pairs, 8x5x2 workspace-switch sequences and 40 wide-workspace sequences (a root with 40 or 300 includes and 200 or 3000 uses of one class; references / definition / documentLink / documentSymbol requests in flight; the next edit sent the moment publishing starts) enumerated; every request and a final barrier request must be answered; a missing answer is a deadlock only with evidence (all server threads asleep with unchanged context-switch counters over 4 samples), else inconclusive. distinct = digest of the schedule / operation list; non-trivial = a step at which the handler and a task could both be released (controlled), >=2 document notifications in flight with >=1 request (bursts)".into()
+        "the real Server (router + lifecycle + concurrency layers) in-process over an in-memory pipe. Controlled part: per scenario - handler under test in {change root, change included document, open included document, re-send identical text, close root} against the still-parked diagnostics task of the previous notification and {no request | one of the 8 request kinds | thorough: every pair of request kinds} - every interleaving of the schedule points (verif hooks) with at most 1 preemption (thorough: 3) is enumerated by stateless DFS; a released thread that does not reach its next point is classified running/blocked from /proc; deadlock = no actor can be released while some are blocked. Uncontrolled part: bursts of 3..9 operations (didOpen/didChange/didClose of a root, its included document and a third independent document back to back, each of the 8 request kinds, sub-3ms pauses) on documents of 1..300 classes, half of them with documents that carry diagnostics and a root that sometimes drops its include (files with published problems leave the workspace); all 8x2 change-then-request pairs, request floods (2..32 requests written back to back, then an edit and one more request), 8x5x2 workspace-switch sequences and 40 wide-workspace sequences (a root with 40 or 300 includes and 200 or 3000 uses of one class; references / definition / documentLink / documentSymbol requests in flight; the next edit sent the moment publishing starts) enumerated; every request and a final barrier request must be answered; a missing answer is a deadlock only with evidence (all server threads asleep with unchanged context-switch counters over 4 samples), else inconclusive. distinct = digest of the schedule / operation list; non-trivial = a step at which the handler and a task could both be released (controlled), >=2 document notifications in flight with >=1 request (bursts)".into()
     }
     fn assumptions(&self) -> Vec<String> {
         vec!["OS scheduling decides the interleaving in the uncontrolled part; liveness is checked as 'answers within the patience window', blocked-thread evidence from /proc/self/task".into()]
@@ -495,6 +495,31 @@ impl Property for C08 {
             },
             // documents with diagnostics, a third independent document: files with published problems
             // leave the workspace (other root, include dropped), then further edits and a request
+            // many requests in flight when an edit arrives: k requests written back to back (one kind, or
+            // all kinds in turn), then a change, then one more request - all must be answered
+            Family::new("request-floods", 2, |c, _r, emit| {
+                let classes = [40, 300][c as usize % 2];
+                for k in [2usize, 3, 4, 5, 6, 8, 12, 16, 32] {
+                    for kind in 0..4usize {
+                        let mut ops = vec![json!(["open", 0]), json!(["open", 1])];
+                        for i in 0..k {
+                            let r = match kind {
+                                0 => "hover",
+                                1 => "references",
+                                2 => "documentSymbol",
+                                _ => REQUESTS[i % REQUESTS.len()],
+                            };
+                            ops.push(json!(["req", i % 2, r]));
+                        }
+                        ops.push(json!(["change", kind % 2]));
+                        ops.push(json!(["req", 0, "hover"]));
+                        if !emit(json!({"kind": "burst", "classes": classes, "ops": ops})) {
+                            return;
+                        }
+                    }
+                }
+            })
+            .exhaustive(),
             Family::new("workspace-switch-bursts", 1, |_c, _r, emit| {
                 for classes in [1, 40] {
                     for r in REQUESTS {
